@@ -91,6 +91,12 @@ pub trait Property: Sized + 'static {
     fn signatures(_case: &Self::Case) -> Vec<&'static str> {
         vec![]
     }
+    /// Like `signatures`, but consulted only once the case has *failed*, with the failure
+    /// message: a finding whose domain cannot be told from the case alone without also hiding
+    /// other kinds of failure on the same cases (a panic, say) is keyed on (case, failure).
+    fn failure_signature(_case: &Self::Case, _message: &str) -> Option<&'static str> {
+        None
+    }
     /// Extra shrink candidates (smaller first) used after / instead of proptest shrinking.
     fn shrink(_case: &Self::Case) -> Vec<Self::Case> {
         vec![]
@@ -359,7 +365,7 @@ impl<P: Property> Ctx<P> {
         if self.is_open_known(case).is_some() {
             return None;
         }
-        match catch(|| P::check(case)) {
+        let m = match catch(|| P::check(case)) {
             Caught::Ok(Outcome::Pass) | Caught::Ok(Outcome::Discard(_)) => None,
             Caught::Ok(Outcome::Fail(m)) => Some(m),
             Caught::Panic(m, l) => {
@@ -369,7 +375,14 @@ impl<P: Property> Ctx<P> {
                     None
                 }
             }
+        }?;
+        if self.is_open_known_failure(case, &m).is_some() {
+            return None;
         }
+        Some(m)
+    }
+    fn is_open_known_failure(&self, case: &P::Case, msg: &str) -> Option<&'static str> {
+        P::failure_signature(case, msg).filter(|s| self.open_sigs.contains(*s))
     }
 
     fn take_sample(&mut self, sub: &str, nontrivial: bool, h: u64, case: &P::Case) {
@@ -448,6 +461,10 @@ impl<P: Property> Ctx<P> {
         }
         self.take_sample(sub, nontrivial, h, case);
         let Some(msg) = msg else { return true };
+        if let Some(sig) = self.is_open_known_failure(case, &msg) {
+            *self.res.excluded_known.entry(sig.to_string()).or_insert(0) += 1;
+            return true;
+        }
         if let Some(f) = self.survey.as_mut() {
             // development aid: dump every failing case, no shrinking
             let _ = writeln!(f, "{}", json!({"check": sub, "case": to_json(case), "msg": msg}));
